@@ -18,6 +18,7 @@ import time
 import vlib
 
 LEVEL = "model_checking"
+CLAIMED = True   # set by the lead after review; only claimed checks enter MANIFEST.json
 
 MANIFEST = dict(
     category="model_checking",
